@@ -560,4 +560,73 @@ def stepFile (m : RMatrix) (line : Str) : RMatrix :=
 
 def readFile (lines : List Str) : RMatrix := lines.foldl stepFile {}
 
+/-! ## the writer's side: the statements of a file, one line each (comments: see `CmStmt` below) -/
+
+inductive Stmt
+  | bo (b : BoLine)
+  | sg (s : SgLine)
+  | gap                              -- an empty line
+  | tx (t : TxLine)
+  | val (v : ValLine)
+  | vt (v : VtLine)
+  | adef (d : DefLine)
+  | defdef (d : DefDefLine)
+  | ba (b : BaLine)
+  | grp (g : GroupLine)
+  | valtype (v : ValTypeLine)
+  | mul (m : MulLine)
+  deriving Repr, DecidableEq, Inhabited
+
+def Stmt.line : Stmt → Str
+  | .bo b => renderBo b
+  | .sg s => renderSg s
+  | .gap => []
+  | .tx t => renderTx t
+  | .val v => renderVal v
+  | .vt v => renderVt v
+  | .adef d => renderDef d
+  | .defdef d => renderDefDef d
+  | .ba b => renderBa b
+  | .grp g => renderGroup g
+  | .valtype v => renderValType v
+  | .mul m => renderMul m
+
+/-- what the statement says to the reader (numbers of an `SG_` line as they are read back) -/
+def Stmt.item : Stmt → Option Item
+  | .bo b => some (.bo b)
+  | .sg s => some (.sg (rereadSg s))
+  | .gap => none
+  | .tx t => some (.tx t)
+  | .val v => some (.val v)
+  | .vt v => some (.vt v)
+  | .adef d => some (.adef d)
+  | .defdef d => some (.defdef d.name d.value)
+  | .ba b => some (.ba b)
+  | .grp g => some (.grp g)
+  | .valtype v => some (.valtype v.id v.name)
+  | .mul m => some (.mul m)
+
+/-- the envelope of each statement kind (what the writer emits: identifier-like names, `VAL_` and `SG_MUL_VAL_` never without entries) -/
+def Stmt.wf : Stmt → Bool
+  | .bo b => wfBo b
+  | .sg s => wfSg s
+  | .gap => true
+  | .tx t => wfTx t
+  | .val v => wfVal v && !v.entries.isEmpty
+  | .vt v => wfVt v
+  | .adef d => wfDef d
+  | .defdef d => wfDefDef d
+  | .ba b => wfBa b
+  | .grp g => wfGroup g
+  | .valtype v => wfValType v
+  | .mul m => wfMul m && !m.ranges.isEmpty
+
+def writeStmts (ss : List Stmt) : List Str := ss.map Stmt.line
+
+/-- the effect of a statement on the matrix under construction -/
+def applyStmt (m : RMatrix) (s : Stmt) : RMatrix :=
+  match s.item with
+  | some it => applyItem m it
+  | none => m
+
 end CanVerif.Dbc
